@@ -446,6 +446,10 @@ func doRun(j *sup.Job, res *sup.Result) {
 	rr.Fingerprint = rs.fp
 	rr.Rules = rs.rules
 	rr.Kinds = rs.kinds
+	if g := time.Since(rs.lastStep); g > rs.maxGap && rr.Premature == false {
+		rs.maxGap = g
+	}
+	rr.MaxStepGapUs = rs.maxGap.Microseconds()
 	rr.Dups = rs.dups
 	rr.DupSameIdent = rs.dupSameIdent
 	theSink.mu.Unlock()
